@@ -4,6 +4,8 @@ package slip
 
 import (
 	"fmt"
+	"math"
+	"math/big"
 	"time"
 	"unsafe"
 )
@@ -82,7 +84,7 @@ func SimpleObject(val any) (obj Object) {
 		obj = Fixnum(tv)
 
 	case uint:
-		obj = Fixnum(tv)
+		obj = unsignedObject(uint64(tv))
 	case uint8:
 		obj = Octet(tv)
 	case uint16:
@@ -90,7 +92,7 @@ func SimpleObject(val any) (obj Object) {
 	case uint32:
 		obj = Fixnum(tv)
 	case uint64:
-		obj = Fixnum(tv)
+		obj = unsignedObject(tv)
 
 	case float32:
 		obj = SingleFloat(tv)
@@ -134,6 +136,14 @@ func SimpleObject(val any) (obj Object) {
 		obj = String(tv.Error())
 	}
 	return
+}
+
+// unsignedObject returns a Fixnum if val fits and a Bignum otherwise.
+func unsignedObject(val uint64) Object {
+	if val <= math.MaxInt64 {
+		return Fixnum(val)
+	}
+	return (*Bignum)(new(big.Int).SetUint64(val))
 }
 
 // Simplify an Object.
